@@ -1,11 +1,11 @@
 SPECIFICATION Spec
 CONSTANTS
-  N = 4
-  Kinds <- K_callables
-  TKs <- TK_core
+  N = 3
+  Kinds <- K_skip
+  TKs <- TK_small
   AllowList = FALSE
-  AllowNSkip = FALSE
-  AllowVSkip = FALSE
+  AllowNSkip = TRUE
+  AllowVSkip = TRUE
   AllowReturn = TRUE
   AllowMoved = FALSE
   AllowHost = FALSE
@@ -15,10 +15,10 @@ CONSTANTS
   AliasRecheck = TRUE
   CallableWalks = 2
   RenameScopeCheck = TRUE
-  COrder = TRUE
-  Orders <- Id4
-  KnownShapes <- Known_c
+  COrder = FALSE
+  Orders <- Id3
+  KnownShapes <- Known_any
   ExportViol = 1
-  ExportOk = 997
+  ExportOk = 499
 INVARIANT NoUnknownViolation
 CHECK_DEADLOCK FALSE
